@@ -49,11 +49,29 @@ fn honest(i: usize, seed: u64, thorough: bool) -> HonestOut {
     let mut cfg = circ::random_gen_cfg(&mut rng, n, ands);
     cfg.feat_not_chain = true;
     cfg.others = cfg.others.max(3);
-    let c = circ::gen_circuit(&mut rng, &cfg);
+    // now and then: more than 1000 AND gates (two chunks of garbled gates) whose outputs at the same chunk
+    // positions are circuit outputs, so that the evaluator reveals their labels in 'lambda'
+    let big = i % 40 == 39 || (i == 7);
+    let (n, c) = if big {
+        let mut b = circ::Builder::new(&[2, 2]);
+        let mut g = b.and(b.input(0, 0), b.input(1, 1));
+        let mut outs = vec![g];
+        let total = 1020 + (i % 3) * 7;
+        for j in 1..total {
+            let x = b.xor(g, b.input(j % 2, 0));
+            g = b.and(x, b.input((j + 1) % 2, 1));
+            if j < 20 || j >= 1000 {
+                outs.push(g);
+            }
+        }
+        (2, b.finish(outs))
+    } else {
+        (n, circ::gen_circuit(&mut rng, &cfg))
+    };
     let inputs = circ::random_inputs(&mut rng, &c);
     let p_eval = rng.random_range(0..n);
     let all: Vec<usize> = (0..n).collect();
-    let p_out: Vec<usize> = if rng.random_bool(0.5) { all.clone() } else { let k = rng.random_range(0..n); vec![k] };
+    let p_out: Vec<usize> = if big || rng.random_bool(0.5) { all.clone() } else { let k = rng.random_range(0..n); vec![k] };
     let expected = circ::eval_clear(&c, &inputs);
     let mut case = Case::new(c.clone(), inputs.clone(), p_eval, p_out.clone());
     case.record_probes = true;
@@ -66,7 +84,7 @@ fn honest(i: usize, seed: u64, thorough: bool) -> HonestOut {
     let mut fields = 0;
     let mut triples_runs = 0;
     let mut deltas = 0;
-    let do_triples = n == 2 && (thorough || i % 4 == 0);
+    let do_triples = !big && n == 2 && (thorough || i % 4 == 0);
     for t in 0..n {
         let Some(d) = ex.probes.iter().find(|r| r.site == "delta" && r.index == t) else { continue };
         deltas += 1;
@@ -82,7 +100,8 @@ fn honest(i: usize, seed: u64, thorough: bool) -> HonestOut {
         }
     }
     let (rep_windows, repeat) = leak::repeat_scan(&ex.net, 1 << 18);
-    let key = format!("n={n} E={p_eval} O={:?} ands={} feat={}", p_out, ands, cfg.features());
+    let ands = if big { 1020 } else { ands };
+    let key = format!("n={n} E={p_eval} O={:?} ands={} feat={}", p_out, ands, if big { "two-chunks".to_string() } else { cfg.features() });
     let sample = json!({"n": n, "p_eval": p_eval, "p_out": p_out, "circuit": circ::circ_to_json(&c), "messages": ex.net.msgs.len(), "bytes": ex.net.msgs.iter().map(|m| m.sent.len()).sum::<usize>(), "windows_scanned": windows, "decoded_fields": fields, "triples_checked": do_triples});
     HonestOut { ok, end: ex.end, key, leaks, windows, fields, triples_runs, sample, deltas, repeat, rep_windows }
 }
@@ -166,7 +185,7 @@ fn fixed_position_part(rep: &mut Report, seed: u64, n: usize, p_eval: usize, and
 pub fn run(tier: &str, seed: u64) -> i32 {
     let thorough = tier == "thorough";
     let mut rep = Report::new("C07", tier, seed, "fault_enumeration");
-    rep.rule = "honest runs over generated circuits with NOT gates (n=2..4, every role) and every adversarial execution of the C03 and C04 catalogues; in each execution the complete transcript (what honest parties sent, what the corrupted party put on the wire) is scanned for each honest party's global key (probe): the key itself at every byte offset in both byte orders, two 16-byte windows (every offset, both orders, mixed) XORing to the key, and (honest n=2 runs) three decoded 128-bit fields XORing to it; in addition, over 64 honest executions of one public configuration no bit at a fixed position of a party's raw traffic may equal or complement a bit of its global key in every execution; freshness: within one base-OT / OT-extension / garbled-gates message of an honest run no high-entropy 16-byte window occurs twice (points, columns, corrections and rows are blinded per element). distinct = honest configuration (n, evaluator, output set, AND class, features) or (configuration, corrupted party, label, deviation class); non-trivial = a delta probe was recorded and at least one window was scanned".into();
+    rep.rule = "honest runs over generated circuits with NOT gates (n=2..4, every role; every 40th run a circuit with more than 1000 AND gates whose gate outputs are circuit outputs) and every adversarial execution of the C03 and C04 catalogues; in each execution the complete transcript (what honest parties sent, what the corrupted party put on the wire) is scanned for each honest party's global key (probe): the key itself at every byte offset in both byte orders, two 16-byte windows (every offset, both orders, mixed) XORing to the key, and (honest n=2 runs) three decoded 128-bit fields XORing to it; in addition, over 64 honest executions of one public configuration no bit at a fixed position of a party's raw traffic may equal or complement a bit of its global key in every execution; freshness: within one base-OT / OT-extension / garbled-gates message of an honest run no high-entropy 16-byte window occurs twice (points, columns, corrections and rows are blinded per element). distinct = honest configuration (n, evaluator, output set, AND class, features) or (configuration, corrupted party, label, deviation class); non-trivial = a delta probe was recorded and at least one window was scanned".into();
     rep.assumptions = vec!["XOR sets of size > 3, non-linear leakage and key bits leaked through abort behaviour (KOS selective failure) are not detected".into()];
     let n_honest = if thorough { 1500 } else { 120 };
     let outs = parallel_for(n_honest, threads(), |i| honest(i, seed, thorough));
